@@ -733,6 +733,31 @@ func init() {
 					}
 				}
 				c.Fault("unconnected-port")
+				if c.Tape.Choose(simrt.StGen, 2, 0) == 1 {
+					// ... and the program uses RunTo* with a target whose upstream closure
+					// contains the half-wired process: must be refused all the same
+					var cands []string
+					for i := range w.Nodes {
+						if w.Nodes[i].Kind != KProc {
+							continue
+						}
+						w.RunTo = []string{w.Nodes[i].Name}
+						if w.closure()[n.Name] {
+							cands = append(cands, w.Nodes[i].Name)
+						}
+					}
+					w.RunTo = nil
+					if len(cands) > 0 {
+						tgt := cands[c.Tape.Choose(simrt.StGen, len(cands), 0)]
+						w.RunToMode = c.Tape.Choose(simrt.StGen, 3, 0)
+						w.RunTo = []string{tgt}
+						if w.RunToMode == 1 {
+							w.RunTo = []string{"^" + tgt + "$"}
+						}
+						pname += fmt.Sprintf(" (RunTo mode %d, target %s)", w.RunToMode, tgt)
+						c.Probe("unconnected-port-inside-runto-closure")
+					}
+				}
 				c.Sample = "unconnected " + n.Name + " " + pname + ": " + sample(w)
 				inc := RunInc(w, c.Tape, nil, 0, IncOpts{KillAt: -1, Strategy: strategyOf(c.Tape), Trace: c.Trace})
 				c.Absorb(inc)
@@ -754,6 +779,12 @@ func init() {
 			}
 			// (b) RunTo
 			pickRunTo(c.Tape, w)
+			if len(cmdSrc) > 0 && w.RunToMode != 1 && c.Tape.Choose(simrt.StGen, 3, 0) == 1 {
+				// a CommandToParams component is itself named as a target
+				names := sortedKeys(cmdSrc)
+				w.RunTo = append(w.RunTo, names[c.Tape.Choose(simrt.StGen, len(names), 0)])
+				c.Probe("command-source-is-a-runto-target")
+			}
 			c.Sample = sample(w)
 			ex := Eval(w)
 			inc := RunInc(w, c.Tape, nil, 0, IncOpts{KillAt: -1, Strategy: strategyOf(c.Tape), Trace: c.Trace})
@@ -786,8 +817,22 @@ func init() {
 				if !ex.Active[name] && ran[sc] > 0 {
 					return Viol("outside-closure-executed", "", "RunTo%v executed the command of %s (CommandToParams: %s), which is outside the upstream closure", w.RunTo, name, sc)
 				}
-				// (0 times is legitimate: when its consumer needs no item - an empty
-				// partner stream - the program may end before the component ever ran)
+				// a component inside the closure whose parameter stream nobody inside the
+				// closure consumes: the stream ends in the sink, Run waits for it - its
+				// command has run (once) when Run returns
+				consumed := false
+				for _, n := range w.Nodes {
+					for _, ps := range n.Params {
+						if ps.From != nil && w.Nodes[ps.From.Node].Name == name && ex.Active[n.Name] {
+							consumed = true
+						}
+					}
+				}
+				if ex.Active[name] && !consumed && inc.RT.RunReturned && ran[sc] != 1 {
+					return Viol("closure-command-count", "", "RunTo%v returned; the command of %s (CommandToParams, inside the closure, its parameter stream drained by the sink) was executed %d times", w.RunTo, name, ran[sc])
+				}
+				// (otherwise 0 times is legitimate: when its consumer needs no item - an
+				// empty partner stream - the program may end before the component ever ran)
 				if ex.Active[name] && ran[sc] > 1 {
 					return Viol("closure-command-count", "", "RunTo%v: the command of %s (CommandToParams, inside the closure) was executed %d times", w.RunTo, name, ran[sc])
 				}
